@@ -73,10 +73,14 @@ def resolve(n, stage=0, inh_prio=None, inh_del=None, inh_new=None):
     prio = inh_prio if inh_prio is not None else n.get('prio')
     xdel = True if n.get('vdel') else n.get('del')
     if t == 'sp':
-        kind = {'required': 'req', 'clear': 'clear'}.get(n['kind'])
+        kind = {'required': 'req', 'clear': 'clear', 'prev': 'prev', 'append': 'append', 'extend': 'extend'}.get(n['kind'])
         if kind is None:
             raise ValueError('model does not cover special node ' + n['kind'])
         r = R(kind)
+        if kind == 'prev':
+            r.v = n['path']
+        elif kind in ('append', 'extend'):
+            r.ch = [resolve(c, stage, None, True, None) for c in n['args']['items']]
     elif t == 'sc':
         r = R('sc', v=None if n.get('vdel') else n['v'], vdel=bool(n.get('vdel')))
     else:
@@ -264,32 +268,103 @@ def lookup(root, path):
     return cur
 
 
-def premerge_clear(acc, n, path=()):
-    """!clear acts before the stage is merged: the older node at its path is emptied and *moved* into the newer tree"""
+import re as _re
+_COMP = _re.compile(r"\[(-?\d+)\]|([^.\[\]]+)")
+
+
+def parse_path(text):
+    out = []
+    for m in _COMP.finditer(text):
+        out.append(int(m.group(1)) if m.group(1) is not None else m.group(2))
+    return tuple(out)
+
+
+def remove_at(root, path):
+    """remove_node: exact look-up, returns the removed node or None"""
+    if not path:
+        raise ModelError('PremergeError', 'cannot remove self')
+    parent = lookup(root, path[:-1])
+    if parent is None or not parent.composed():
+        return None
+    node = lookup(parent, path[-1:])
+    if node is None:
+        return None
+    if parent.kind == 'map':
+        del parent.ch[path[-1]]
+    else:
+        del parent.ch[path[-1]]
+    return node
+
+
+def _adopt(elems, target):
+    """elements appended to an existing list take the flags that list hands to its children"""
+    for e in elems:
+        for _, x in walk(e):
+            x.prio = x.prio
+    return elems
+
+
+def premerge(acc, n, path=()):
+    """premerge operators act, in document order, before the stage is merged: they take the older node at a path and
+    *move* it into the newer tree (!clear empties it, !prev moves it elsewhere, !append/!extend grow it)"""
     if not n.composed():
         return
     for k, c in n.items():
+        here = path + (k,)
         if c.kind == 'clear':
-            tgt = lookup(acc, path + (k,))
+            tgt = lookup(acc, here)
             if tgt is None:
-                raise ModelError('PremergeError', f'!clear at {path + (k,)!r}: nothing there', path + (k,))
+                raise ModelError('PremergeError', f'!clear at {here!r}: nothing there', here)
             if not tgt.composed():
-                raise ModelError('PremergeError', f'!clear at {path + (k,)!r}: not a container', path + (k,))
+                raise ModelError('PremergeError', f'!clear at {here!r}: not a container', here)
             tgt.ch = {} if tgt.kind == 'map' else []
             n.ch[k] = tgt
+        elif c.kind == 'prev':
+            tgt = remove_at(acc, parse_path(c.v))
+            if tgt is None:
+                raise ModelError('PremergeError', f'!prev {c.v!r}: no such node', here)
+            n.ch[k] = tgt
+        elif c.kind == 'append':
+            tgt = remove_at(acc, here)
+            if tgt is None:
+                raise ModelError('PremergeError', f'!append at {here!r}: nothing to append to', here)
+            if tgt.kind != 'seq':
+                raise ModelError('PremergeError', f'!append at {here!r}: not a list', here)
+            tgt.ch.extend(c.ch)
+            n.ch[k] = tgt
+        elif c.kind == 'extend':
+            tgt = lookup(acc, here)
+            if tgt is not None and tgt.kind == 'seq':
+                remove_at(acc, here)
+                tgt.ch.extend(c.ch)
+                n.ch[k] = tgt
+            else:
+                n.ch[k] = R('seq', ch=list(c.ch), dele=True, prio=c.prio, stage=c.stage, anew=c.anew)
         else:
-            premerge_clear(acc, c, path + (k,))
+            premerge(acc, c, here)
+
+
+def premerge_first(n):
+    """premerge with nothing to merge into: !append/!extend become plain lists, !clear and !prev fail"""
+    if not n.composed():
+        return
+    for k, c in n.items():
+        if c.kind in ('clear', 'prev'):
+            raise ModelError('PremergeError', f'!{c.kind} in a first document')
+        if c.kind in ('append', 'extend'):
+            n.ch[k] = R('seq', ch=list(c.ch), dele=True, prio=c.prio, stage=c.stage, anew=c.anew)
+        else:
+            premerge_first(c)
 
 
 def build(docs, strict_domain=False):
     """model of Builder.build for documents without premerge operators other than !clear"""
     acc = resolve(docs[0], 0)
-    if any(n.kind == 'clear' for _, n in walk(acc)):
-        raise ModelError('PremergeError', '!clear in a first document')
+    premerge_first(acc)
     require_all_new(acc, ())
     for i, d in enumerate(docs[1:], 1):
         n = resolve(d, i)
-        premerge_clear(acc, n)
+        premerge(acc, n)
         acc = merge(acc, n, (), strict_domain)
     return acc
 
@@ -320,3 +395,12 @@ def writers(docs):
 
 def winner(ws):
     return max(ws, key=lambda w: (w[1], w[2]))
+
+
+def config(docs, strict_domain=False):
+    """model of Config.build: merged tree, then the !required check, then plain data"""
+    acc = build(docs, strict_domain)
+    req = surviving_required(acc)
+    if req:
+        raise ModelError('ValueError', 'required nodes not set: ' + repr(req), req)
+    return plain(acc)
